@@ -387,6 +387,44 @@ def wlearner_targets():
     return ts
 
 
+# ------------------------------------------------------------------------------------------ dataset_t const interface
+DSC_H = 'specs/C18/dsconst2.h'
+DSTU = 'src/dataset.cpp'
+GITER = r'__normal_iterator<(const )?std::unique_ptr<nano::generator_t|^std::vector<std::unique_ptr<nano::generator_t.*::const_iterator$'
+DSTYPES = [(GITER, 'uint64_t'), (r'^nano::dataset_t$', 'struct nv_dataset'), (r'^std::vector<std::unique_ptr<nano::generator_t|^(nano::)?rgenerators_t$', 'struct nv_gens'),
+           (r'^std::unique_ptr<nano::generator_t|^(nano::)?rgenerator_t$', 'struct nv_generator*'), (r'^nano::generator_t$', 'struct nv_generator'),
+           (r'^nano::parallel::pool_t$', 'struct nv_pool'), (r'^nano::datasource_t$', 'struct nv_datasource')]
+
+
+def dataset_const_targets():
+    lay = frame.Layout([dict(tu=DSTU, cls='nano::generator_t', cname='struct nv_generator', bases=CLONABLE, ptr=DPTR),
+                        dict(tu=DSTU, cls='nano::dataset_t', cname='struct nv_dataset', bases=CLONABLE, ptr=DPTR)], types=DSTYPES, base_tu=DSTU)
+
+    def pre():
+        text, info = lay.text()
+        return f'#include "{astload.VERIF}/specs/C18/dsconst.h"\n' + text, info
+
+    def common():
+        track = frame.make_track()
+        return dict(types=DSTYPES, opaque=frame.ERASED, hooks=[track.expr_hook], stmt_hooks=[track.stmt_hook], uf_float=False, self_struct='struct nv_dataset',
+                    calls=[(r'^operator->\|', '{0}'), (r'^operator!=\|.*__normal_iterator', '({0} != {1})'), (r'^operator\+\+\|.*__normal_iterator', '(++{0})'),
+                           (r'^operator\*\|.*__normal_iterator', '(*nv_gen_at(&self->m_generators, {0}))'),
+                           (r'^operator\[\]\|.*\|(const )?std::vector<std::unique_ptr<nano::generator_t', '(*nv_gen_at({&0}, {1}))'),
+                           (r'^operator\(\)\|.*\|(const )?nano::tensor_t<nano::tensor_vector_storage_t, long, 2>.*#3$', 'nv_elem_i64({1}, {2})')] + PURE,
+                    members=[(r'^check\|nano::dataset_t', 'nv_dataset_check({self}, {0})!'), (r'^byfeature\|nano::dataset_t', 'dataset_byfeature!^'),
+                             (r'^(flatten|select)\|nano::generator_t \*\|#3', 'nv_gen_call3({self}, {0}, {1}, {2})'),
+                             (r'^fit\|nano::generator_t', 'nv_gen_fit({self})'),
+                             (r'^begin\|.*std::vector<std::unique_ptr<nano::generator_t', '((uint64_t)0)'),
+                             (r'^end\|.*std::vector<std::unique_ptr<nano::generator_t', '{self}->n')])
+    byf = lambda: Fn('dataset_byfeature', DSTU, 'byfeature', flt='nano::dataset_t', **common())
+    ts = [T('dataset_flatten', [Fn('dataset_flatten', DSTU, 'flatten', flt='nano::dataset_t', **common())], DSC_H, pre=pre),
+          T('dataset_byfeature', [byf()], DSC_H, pre=pre)]
+    for kind in SELECT_KINDS:
+        sel = lambda d, kind=kind: len(astload.param_types(d)) == 3 and f'{kind}_mem_t' in astload.param_types(d)[2]
+        ts.append(T(f'dataset_select_{kind}', [Fn(f'dataset_select_{kind}', DSTU, 'select', flt='nano::dataset_t', select=sel, **common()), byf()], DSC_H, pre=pre))
+    return ts
+
+
 def build(tier):
-    targets = solver_targets() + iterator_targets() + objective_targets() + loss_targets() + tune_targets() + wlearner_targets()
+    targets = solver_targets() + iterator_targets() + objective_targets() + loss_targets() + tune_targets() + wlearner_targets() + dataset_const_targets()
     return {'targets': targets, 'vcs': [], 'decided': [], 'not_decided': [], 'assumptions': [], 'trusted': []}
